@@ -278,6 +278,21 @@ def keys(ctx, rep, rule):
                 ws = [(bi, kind, st, line) for (bi, kind, st, line) in flow.field_writes(body, V3, fld) if kind == "assign"]
                 rep.check(rule, fn + "|installs " + fld, bool(ws) and all(flow.mentions(prov.rvalue(w[2]["rv"]), lambda s: _is_call(s, want)) for w in ws),
                           "self.%s replaced by the new key" % fld, "self.%s is not replaced by the newly derived key" % fld, body.loc(), obligation=True)
+            oks_ = flow.blocks_assigning_return(body, lambda rv: rv["k"] == "agg" and rv.get("vname") == "Ok")
+            for fld in ("auth_key", "priv_key"):
+                ws = [(bi, kind, st, line) for (bi, kind, st, line) in flow.field_writes(body, V3, fld) if kind == "assign"]
+                if ws and oks_:
+                    cut = {(w[0], s_) for w in ws for s_ in body.blocks[w[0]].succs()}
+                    # an Ok built in the very block that performs the store (after it) is fine
+                    def _after(g_):
+                        blk_ = body.blocks[g_]
+                        wi = [i_ for i_, st_ in enumerate(blk_.stmts) if any(st_ is w[2] for w in ws)]
+                        oi = [i_ for i_, st_ in enumerate(blk_.stmts) if st_["k"] == "assign" and st_["rv"]["k"] == "agg" and st_["rv"].get("vname") == "Ok"]
+                        return bool(wi) and bool(oi) and min(wi) < max(oi)
+                    goals_ = [g_ for g_ in oks_ if not _after(g_)]
+                    rep.check(rule, fn + "|every Ok installs " + fld, not goals_ or cfg.must_pass(body, [0], goals_, cut), "no successful return without the new key",
+                              "set_keys can return Ok without replacing self.%s (an early return keeps the previous key: later messages are signed or "
+                              "encrypted with a stale key)" % fld, body.loc(), obligation=True)
             ws = [(bi, kind, st, line) for (bi, kind, st, line) in flow.field_writes(body, V3, "user_name") if kind == "assign"]
             rep.check(rule, fn + "|installs user_name", bool(ws) and all(prov.rvalue(w[2]["rv"]) == p_user for w in ws), "self.user_name = user_name",
                       "user name is not replaced", body.loc(), obligation=True)
